@@ -54,3 +54,80 @@ theorem validateGroups_ast {ho : HashOrder} {defined : Defined} {syn : List Diag
     · cases h; rfl
 
 end Aidl
+
+namespace Aidl
+open Aidl.Spec
+
+/-- the Warning pushed for a method of a oneway interface that spells `oneway` itself -/
+def onewayWarning (i : Interface) (m : Method) : Diag :=
+  mkDiag .warning m.onewayRange
+    ("Method `" ++ m.name ++ "` of oneway interface does not need to be marked as oneway")
+    (some "redundant oneway") none [{ message := "oneway interface", range := i.sym }]
+
+theorem setUpOnewayMethod_fst (i : Interface) (m : Method) :
+    (setUpOnewayMethod i m).1 = { m with oneway := true } := by
+  unfold setUpOnewayMethod
+  split
+  · rename_i h; cases m; simp_all
+  · rfl
+
+theorem setUpOnewayMethod_snd (i : Interface) (m : Method) :
+    (setUpOnewayMethod i m).2 = if m.oneway then [onewayWarning i m] else [] := by
+  unfold setUpOnewayMethod onewayWarning
+  split <;> simp_all
+
+theorem setUpOnewayInterface_diags (i : Interface) (h : i.oneway = true) :
+    (setUpOnewayInterface i).2 = (i.methods.filter (·.oneway)).map (onewayWarning i) := by
+  unfold setUpOnewayInterface
+  simp only [h, Bool.not_true, Bool.false_eq_true, if_false, Interface.methods, List.flatMap_map]
+  generalize i.elements = els
+  induction els with
+  | nil => rfl
+  | cons el els ih =>
+    cases el with
+    | const c => simpa [setUpOnewayElement, List.filterMap_cons] using ih
+    | method m =>
+      have hel : (setUpOnewayElement i (.method m)).2 = if m.oneway then [onewayWarning i m] else [] := by
+        simp [setUpOnewayElement, setUpOnewayMethod_snd]
+      simp only [List.flatMap_cons, hel, List.filterMap_cons, ih]
+      by_cases hm : m.oneway = true <;> simp [hm, List.filter_cons]
+
+theorem methodsOf_setUpOneway (x : AidlFile) :
+    methodsOf (setUpOneway x).1 =
+      if interfaceOneway x then (methodsOf x).map (fun m => { m with oneway := true }) else methodsOf x := by
+  unfold setUpOneway methodsOf interfaceOneway
+  cases hitem : x.item with
+  | interface i =>
+    simp only
+    by_cases h : i.oneway = true
+    · rw [setUpOnewayInterface_methods i h]
+      simp [h, setUpOnewayMethod_fst]
+    · have h' : i.oneway = false := by simpa using h
+      simp [setUpOnewayInterface, h']
+  | parcelable p => simp [hitem]
+  | enum e => simp [hitem]
+
+theorem interfaceOneway_setUpOneway (x : AidlFile) : interfaceOneway (setUpOneway x).1 = interfaceOneway x := by
+  unfold setUpOneway interfaceOneway
+  cases hitem : x.item with
+  | interface i => simp [setUpOnewayInterface_oneway]
+  | parcelable p => simp [hitem]
+  | enum e => simp [hitem]
+
+/-- the Warnings pushed by `set_up_oneway_interface` -/
+theorem setUpOneway_diags (x : AidlFile) :
+    (setUpOneway x).2 = match x.item with
+      | .interface i => if i.oneway then (i.methods.filter (·.oneway)).map (onewayWarning i) else []
+      | _ => [] := by
+  unfold setUpOneway
+  cases hitem : x.item with
+  | interface i =>
+    simp only
+    by_cases h : i.oneway = true
+    · simp [h, setUpOnewayInterface_diags i h]
+    · have h' : i.oneway = false := by simpa using h
+      simp [setUpOnewayInterface, h']
+  | parcelable p => rfl
+  | enum e => rfl
+
+end Aidl
